@@ -19,20 +19,26 @@ CONFIG = {
               "(ModelsA (unit_edit C l) n A = ModelsA C n (l :: A): all later partial counts / SAT / enumeration / sampling are about "
               "the conjunction), C11_unit_count (the cached root count = MCA C n [l], proved without well-formedness of the edited "
               "vector), C11_unit_is_edit_spec (= edit_spec for a unit clause), C11_unit_idx_ok + C11_reflatten (the edited vector is a "
-              "non-empty post-order; the DFS re-flattening preserves function and count); reduce_clause (C11_reduce_clause, "
-              "_skipped, _kept, C11_prepare_no_panic); the dispatch conditions decidable without the graph (C11_dispatch_nothing / "
-              "_cache_hit / _unit / _empty_store, C11_cache_matches_inverse); the specification (C11_edit_spec_add: adding is "
-              "conjunction, tautologies and duplicates absorbed; C11_edit_spec_rmv; C11_edit_spec_features). "
+              "non-empty post-order; the DFS re-flattening preserves function and count); C11_unit_WF / C11_unit_WFQ (when the edited "
+              "vector has no dead node it is WF and WFQ again: decomposable, smooth, complete, deterministic, unique leaves, reachable, "
+              "non-zero literals) and therefore, composed with the C02 / C03 / C05 theorems about the query ALGORITHMS, "
+              "C11_unit_then_count (execute_query on the edited vector, every strategy, every Clean state: MCA C n (l :: A)), "
+              "C11_unit_then_sat, C11_unit_then_core (syntactic core = literals in all models containing l); enumeration and "
+              "sampling follow the same way from C06 / C07 (which take WFQ of the vector as hypothesis); "
+              "reduce_clause (C11_reduce_clause, _skipped, _kept, C11_prepare_no_panic); the dispatch conditions decidable without "
+              "the graph (C11_dispatch_nothing / _cache_hit / _unit / _empty_store, C11_cache_matches_inverse); the specification "
+              "(C11_edit_spec_add: adding is conjunction, tautologies and duplicates absorbed; C11_edit_spec_rmv; "
+              "C11_edit_spec_features). "
               "REFUTED on the faithful model (vm_compute witnesses): C11_unit_core_refuted (K4: dead branch after a unit edit, vector "
               "neither no_dead nor smooth, syntactic core under-reports), C11_cache_matches_partial_refuted (K25), "
               "C11_removal_after_simplify_refuted (K8), C11_multi_removal_refuted (K23). "
-              "Of WF for the edited vector only non-emptiness and idx_ok are proved; decomposable / complete / det_cert / unique leaves "
-              "are evaluated per dumped vector by check_wf (also modulo dead or-children: strip_dead), smooth and no_dead are not "
-              "preserved. "
+              "With dead nodes after the edit (K4 class, about 1 % of the unit edits of the run) only C11_unit_sem / C11_unit_count "
+              "speak about the vector; check_wf is then evaluated per dumped vector modulo dead or-children (strip_dead) and every "
+              "answer is judged by the truth table. "
               "SPEC + CORRESPONDENCE ONLY (not modelled): closest_unsplitable_bridge, find_bridges, divide_bridge, "
               "transform_to_cnf_from_starting_cnf, switch_sub_dag, recompile_everything, the undo cache contents - every answer after "
               "every edit is judged against the truth table of edit_spec on the source formula. "
-              "On the current tree the property FAILS in 15 recorded input classes (K3 K4 K8 K20-K31), each with its own signature",
+              "On the current tree the property FAILS in 18 recorded input classes (K3 K4 K8 K20-K34), each with its own signature; every one is re-established on every run by a minimal history (corpus in harness/src/k_c11.rs)",
     "assumptions": [
         "theorems are about the Gallina model Model/Edit.v; tied to /repo by: unit_edit = the dumped node vector after every UnitClause "
         "step (exact vector equality), reflatten = identity on every dumped vector (validates the DfsPostOrder model), reduce_clause on "
@@ -58,10 +64,11 @@ CONFIG = {
         "that stay satisfiable; (iii) reduce_clause directly",
         "the stand-in compiler (harness/src/cnfc.rs, gen.rs) replaces d4 for every compilation ddnnife performs (load and recompile); its contract (output denotes the CNF) is checked by the oracle at the load step of every history",
         "signatures name the input class of the first failing step (chk_c11.ml, fixed order): mode nnf: new-variable-clause (K3), "
-        "nnf-recompile-forgets-model (K20), nnf-removal (K21), dead-branch-core (K4); mode cnf: undo-not-inverse (K25), "
-        "after-undo-stale-cnf (K22), clause-removal (K8), multi-clause-removal (K23), unit-add-drops-removal (K26), add-on-empty-cnf "
-        "(K27), removal-frees-core (K24), new-variable-subdag (K29), free-feature-subdag (K28), subdag-after-unit-edit (K30), "
-        "panic-after-unit-edit (K31), dead-branch-core (K4); anything else is reported under edit:wrong-count / wrong-core / "
+        "nnf-recompile-forgets-model (K20), nnf-removal (K21), dead-branch-core (K4); mode cnf: undo-stale (K34), undo-partial-match (K25), "
+        "after-undo-stale-cnf (K22; :panic K33), clause-removal (K8), multi-clause-removal (K23), add-on-empty-cnf (K27), "
+        "unit-add-drops-removal (K26), removal-frees-core (K24), new-variable-subdag (K29), free-feature-subdag (K28), "
+        "subdag-after-unit-edit (K30), unit-after-subdag (K32), panic-after-unit-edit (K31), dead-branch-core (K4); a failing step "
+        "without a class of its own inherits the first class met earlier in its history (a wrong stored clause list shows later); anything else is reported under edit:wrong-count / wrong-core / "
         "wrong-enumeration / wrong-sample / feature-count / inverse-not-restored / panic / load-wrong and is a VIOLATION",
     ],
     "rule": "one case = one history (load + edits with the battery after each) or the reduce_clause table; non-trivial when some dumped "
